@@ -23,6 +23,7 @@ CONSTANTS D,          \* draft: 3, 4, 6, 7
           Width,      \* maximal number of (own) keywords
           Foreigns,   \* TRUE: AddForeign steps
           Wraps,      \* TRUE: Wrap steps
+          RefWraps,   \* TRUE: wrap steps that put the current keywords NEXT TO a $ref (they must be ignored)
           WrapMax,    \* Wrap applies to schemas with at most this many keywords
           ExportMode, \* "none" | "verdict" | "errors"
           WithAcc,    \* TRUE: export whether the draft's metaschema accepts the schema (C11)
@@ -67,8 +68,16 @@ WrapKinds(d) == {"items", "itemsArr", "properties", "patternProperties", "additi
    \cup (IF d = 3 THEN {"extends3", "typeSchema", "disallowSchema"} ELSE {"allOf", "anyOf", "oneOf", "not"})
    \cup (IF d >= 6 THEN {"contains", "propertyNames"} ELSE {})
    \cup (IF d = 7 THEN {"if", "then", "else"} ELSE {})
+RefKinds == {"refsibDef", "refsibHash", "refsibEmpty", "refsibFirst"}
+RefStr(w) == IF w = "refsibHash" THEN <<35>> ELSE IF w = "refsibEmpty" THEN <<>>
+             ELSE <<35, 47>> \o K_definitions \o <<47>> \o S_a            \* "#/definitions/a"
 WrapIn(d, w, S) ==
-  CASE w = "items" -> Obj1(K_items, S)
+  CASE w \in {"refsibDef", "refsibHash", "refsibEmpty"} ->
+         JObj(<<K_properties, K_definitions>>, <<Obj1(S_a, AddMember(S, K_d_ref, Str(RefStr(w)))), Obj1(S_a, TInt)>>)
+    [] w = "refsibFirst" ->
+         JObj(<<K_properties, K_definitions>>,
+              <<Obj1(S_a, JObj(<<K_d_ref>> \o S.k, <<Str(RefStr(w))>> \o S.v)), Obj1(S_a, TInt)>>)
+    [] w = "items" -> Obj1(K_items, S)
     [] w = "itemsArr" -> Obj2(K_items, Arr(<<TInt, S>>), K_additionalItems, S)
     [] w = "properties" -> Obj1(K_properties, Obj2(S_b, TInt, S_a, S))
     [] w = "patternProperties" -> Obj1(K_patternProperties, Obj1(<<97>>, S))
@@ -98,12 +107,24 @@ AddKeyword(k, v) == /\ ~wrapped /\ nforeign = 0 /\ Allowed(schema, k)
 AddForeign(k, v) == /\ Foreigns /\ ~wrapped /\ nforeign = 0 /\ k \notin KeysOf(schema)
                     /\ (schema.k = <<>> \/ (Len(schema.k) = 1 /\ schema.k[1] \in ForeignBase))
                     /\ schema' = AddMember(schema, k, v) /\ nforeign' = 1 /\ UNCHANGED wrapped
-Wrap(w) == /\ Wraps /\ ~wrapped /\ nforeign = 0 /\ schema.k # <<>> /\ Len(schema.k) <= WrapMax
+\* other-draft keywords together with the siblings they would consult if they were honoured
+ForeignGroups(d) ==
+  IF d = 7 THEN {}
+  ELSE { <<<<K_if, x>>, <<K_then, y>>, <<K_else, z>>>> : x \in {EmptyObj, TInt}, y \in {Never(d), EmptyObj}, z \in {Never(d), TStr} }
+RECURSIVE AddAll(_, _)
+AddAll(S, g) == IF g = <<>> THEN S ELSE AddAll(AddMember(S, g[1][1], g[1][2]), Tail(g))
+AddForeignGroup(g) == /\ Foreigns /\ ~wrapped /\ nforeign = 0
+                      /\ \A j \in DOMAIN g : g[j][1] \notin KeysOf(schema)
+                      /\ (schema.k = <<>> \/ (Len(schema.k) = 1 /\ schema.k[1] \in ForeignBase))
+                      /\ schema' = AddAll(schema, g) /\ nforeign' = 1 /\ UNCHANGED wrapped
+
+Wrap(w) == /\ (IF w \in RefKinds THEN RefWraps ELSE Wraps) /\ ~wrapped /\ nforeign = 0 /\ schema.k # <<>> /\ Len(schema.k) <= WrapMax
            /\ schema' = WrapIn(D, w, schema) /\ wrapped' = TRUE /\ UNCHANGED nforeign
 
 Next == \/ \E kv \in Pool(D) : AddKeyword(kv[1], kv[2])
         \/ \E k \in Foreign(D), v \in ForeignVals : AddForeign(k, v)
-        \/ \E w \in WrapKinds(D) : Wrap(w)
+        \/ \E w \in WrapKinds(D) \cup RefKinds : Wrap(w)
+        \/ \E g \in ForeignGroups(D) : AddForeignGroup(g)
 Spec == Init /\ [][Next]_vars
 
 ----------------------------------------------------------------------------
@@ -120,8 +141,8 @@ C05Static == \A i \in 1 .. NI : UnionLaw(schema, Instances[i])
 \* C05, incremental form: a new keyword that nobody present consults, and that consults nobody present,
 \* adds exactly its own errors and leaves all others alone
 LastKey(S) == S.k[Len(S.k)]
-IsAddStep == Len(schema'.k) = Len(schema.k) + 1 /\ wrapped' = wrapped
-C05Step == [][ (IsAddStep /\ nforeign' = 0
+IsAddStep == Len(schema'.k) > Len(schema.k) /\ wrapped' = wrapped
+C05Step == [][ (IsAddStep /\ nforeign' = 0 /\ Len(schema'.k) = Len(schema.k) + 1
                 /\ LastKey(schema') \notin UNION { Consults(D, k) : k \in KeysOf(schema) }
                 /\ Consults(D, LastKey(schema')) \cap KeysOf(schema) = {})
                => \A i \in 1 .. NI :
@@ -147,6 +168,13 @@ SpecLocated(S, I, es, paip, pasp) ==
         /\ (e.tag = "" /\ ~nav.pn => At(I, aip, 1).ok)
         /\ SpecLocated(S, I, e.ctx, aip, asp)
 C06Spec == \A i \in 1 .. NI : SpecLocated(schema, Instances[i], Errs(schema, Instances[i]).errs, <<>>, <<>>)
+
+\* C10/C02: keywords written next to a $ref are ignored -- the wrapped schema behaves as the same wrapper around {}
+IsRefWrapStep == wrapped' /\ ~wrapped /\ \E w \in RefKinds : schema' = WrapIn(D, w, schema)
+RefSiblingStep == [][ IsRefWrapStep =>
+                      LET w == CHOOSE w \in RefKinds : schema' = WrapIn(D, w, schema)
+                          bare == WrapIn(D, w, EmptyObj)
+                      IN  \A i \in 1 .. NI : SameBag(Errs(schema', Instances[i]).errs, Errs(bare, Instances[i]).errs) ]_vars
 
 \* sanity of the oracle itself
 EmptyAccepts == schema = EmptyObj => \A i \in 1 .. NI : IsValidR(Errs(schema, Instances[i]))
